@@ -65,37 +65,65 @@ fn plain_net(id: u32) -> packet::bgp::Ipv4Net {
         mask: 24,
     }
 }
-/// prefix (kind, id): kind 0 = IPv4 unicast 10.<id>.0.0/24, kind 1 = VPNv4 with
-/// inner prefix 10.<100+id>.0.0/24 (so that the VRF-local form, printed as kind 2,
-/// never collides with a kind-0 prefix).
+/// prefix (kind, id):
+///   kind 0  IPv4 unicast 10.<id>.0.0/24 (id < 100)
+///   kind 1  VPNv4, id = 10*rd + inner: RD 65000:<1+rd>, inner prefix 10.<100+inner>.0.0/24;
+///           its VRF-local form (what reaches a VRF table) is printed as kind 2, id inner
+///   kind 3  IPv6 unicast 2001:db8:<id>::/48 (id < 100)
+///   kind 4  VPNv6, id = 10*rd + inner, inner prefix 2001:db8:<100+inner>::/48; VRF-local form kind 5
+fn plain_net6(id: u32) -> packet::bgp::Ipv6Net {
+    packet::bgp::Ipv6Net {
+        addr: std::net::Ipv6Addr::new(0x2001, 0xdb8, id as u16, 0, 0, 0, 0, 0),
+        mask: 48,
+    }
+}
 fn mk_net(kind: u32, id: u32) -> (Family, packet::Nlri) {
-    if kind == 0 {
-        (Family::IPV4, packet::Nlri::V4(plain_net(id)))
-    } else {
-        let prefix = plain_net(100 + id);
-        let rd = packet::rd::RouteDistinguisher::TwoOctetAs {
-            admin: 65000,
-            assigned: 1,
-        };
-        let labels = packet::mpls::MplsLabelStack::new(vec![packet::mpls::MplsLabel::new(16)]);
-        (
+    let rd = packet::rd::RouteDistinguisher::TwoOctetAs {
+        admin: 65000,
+        assigned: 1 + id / 10,
+    };
+    let labels = || packet::mpls::MplsLabelStack::new(vec![packet::mpls::MplsLabel::new(16)]);
+    match kind {
+        0 => (Family::IPV4, packet::Nlri::V4(plain_net(id))),
+        1 => (
             Family::IPV4_VPN,
-            packet::Nlri::VpnV4(packet::vpn::VpnV4Nlri { prefix, rd, labels }),
-        )
+            packet::Nlri::VpnV4(packet::vpn::VpnV4Nlri {
+                prefix: plain_net(100 + id % 10),
+                rd,
+                labels: labels(),
+            }),
+        ),
+        3 => (Family::IPV6, packet::Nlri::V6(plain_net6(id))),
+        _ => (
+            Family::IPV6_VPN,
+            packet::Nlri::VpnV6(packet::vpn::VpnV6Nlri {
+                prefix: plain_net6(100 + id % 10),
+                rd,
+                labels: labels(),
+            }),
+        ),
+    }
+}
+fn rd_index(rd: &packet::rd::RouteDistinguisher) -> i128 {
+    match rd {
+        packet::rd::RouteDistinguisher::TwoOctetAs { assigned, .. } => *assigned as i128 - 1,
+        _ => -1,
     }
 }
 fn net_val(n: &packet::Nlri) -> Val {
+    let v = |k: i128, id: i128| Val::L(vec![Val::I(k), Val::I(id)]);
     match n {
         packet::Nlri::V4(p) => {
             let b = p.addr.octets()[1] as i128;
-            if b >= 100 {
-                Val::L(vec![Val::I(2), Val::I(b - 100)])
-            } else {
-                Val::L(vec![Val::I(0), Val::I(b)])
-            }
+            if b >= 100 { v(2, b - 100) } else { v(0, b) }
         }
-        packet::Nlri::VpnV4(v) => Val::L(vec![Val::I(1), Val::I(v.prefix.addr.octets()[1] as i128 - 100)]),
-        _ => Val::L(vec![Val::I(9), Val::I(0)]),
+        packet::Nlri::VpnV4(x) => v(1, 10 * rd_index(&x.rd) + x.prefix.addr.octets()[1] as i128 - 100),
+        packet::Nlri::V6(p) => {
+            let b = p.addr.segments()[2] as i128;
+            if b >= 100 { v(5, b - 100) } else { v(3, b) }
+        }
+        packet::Nlri::VpnV6(x) => v(4, 10 * rd_index(&x.rd) + x.prefix.addr.segments()[2] as i128 - 100),
+        _ => v(9, 0),
     }
 }
 fn rt_bytes(r: u32) -> [u8; 8] {
@@ -112,6 +140,20 @@ fn as_path(len: u8) -> packet::Attribute {
 /// separated by LOCAL_PREF, AS_PATH length and ORIGIN in turn, so that the
 /// abstract "lower pref wins" of the model runs through decision steps 2-4.
 fn mk_attrs(pref: u32, llgrc: bool, nollgr: bool, rts: &[u32]) -> Arc<Vec<packet::Attribute>> {
+    mk_attrs_rr(pref, llgrc, nollgr, rts, 0, None)
+}
+
+/// as mk_attrs, plus the route-reflection attributes: a CLUSTER_LIST of `clen`
+/// entries and an ORIGINATOR_ID 1.1.1.<oid> (router ids are 1.1.1.<rid>, so the
+/// model's small numbers order the same way)
+fn mk_attrs_rr(
+    pref: u32,
+    llgrc: bool,
+    nollgr: bool,
+    rts: &[u32],
+    clen: u32,
+    oid: Option<u32>,
+) -> Arc<Vec<packet::Attribute>> {
     let (lp, plen, origin) = match pref {
         0 => (200u32, 2u8, 0u32),
         1 => (100, 1, 0),
@@ -141,6 +183,16 @@ fn mk_attrs(pref: u32, llgrc: bool, nollgr: bool, rts: &[u32]) -> Arc<Vec<packet
             data.extend_from_slice(&rt_bytes(*r));
         }
         v.push(packet::Attribute::new_with_bin(packet::Attribute::EXTENDED_COMMUNITY, data).unwrap());
+    }
+    if clen > 0 {
+        let mut data = Vec::new();
+        for i in 0..clen {
+            data.extend_from_slice(&(0x0a00_0000u32 + i).to_be_bytes());
+        }
+        v.push(packet::Attribute::new_with_bin(packet::Attribute::CLUSTER_LIST, data).unwrap());
+    }
+    if let Some(o) = oid {
+        v.push(packet::Attribute::new_with_value(packet::Attribute::ORIGINATOR_ID, if o == 0 { 0 } else { 0x0101_0100 + o }).unwrap());
     }
     Arc::new(v)
 }
@@ -216,7 +268,7 @@ fn nh_val(n: Option<bgp::Nexthop>) -> Val {
     Val::opt(n.map(nh_form))
 }
 
-const FAMS: [Family; 2] = [Family::IPV4, Family::IPV4_VPN];
+const FAMS: [Family; 4] = [Family::IPV4, Family::IPV4_VPN, Family::IPV6, Family::IPV6_VPN];
 
 /// Adj-RIB-In and Loc-RIB views of the whole table, canonical order.
 ///   [ [net, [[peer,sess,pid,nh,tok,unfiltered]...] (rank order),
@@ -353,7 +405,12 @@ fn mk_world(cfg: &Val, shards: usize) -> World {
     };
     for a in cfg.at(1).list() {
         let rts: Vec<u32> = a.at(4).list().iter().map(|r| r.u32()).collect();
-        w.attrs.push((a.at(0).u32(), mk_attrs(a.at(1).u32(), a.at(2).bool(), a.at(3).bool(), &rts)));
+        let clen = if a.list().len() > 5 { a.at(5).u32() } else { 0 };
+        let oid = if a.list().len() > 6 { a.at(6).list().first().map(|x| x.u32()) } else { None };
+        w.attrs.push((
+            a.at(0).u32(),
+            mk_attrs_rr(a.at(1).u32(), a.at(2).bool(), a.at(3).bool(), &rts, clen, oid),
+        ));
     }
     let mut vrfs: FnvHashMap<String, table::Vrf> = FnvHashMap::default();
     for (i, v) in cfg.at(2).list().iter().enumerate() {
@@ -432,6 +489,29 @@ fn fib_op(w: &mut World, op: &Val) {
         }
         9 => w.tm.soft_reset_in(peer_addr(op.at(1).u32())),
         10 => w.tm.unregister_peer(peer_addr(op.at(1).u32()), &fams, &[]),
+        11 => {
+            // insert under a prefix limit: [11, peer, sess, kind, id, pid, nh, tok, max, counter]
+            let s = w.src(op.at(1).u32(), op.at(2).u32());
+            let (f, n) = mk_net(op.at(3).u32(), op.at(4).u32());
+            let nh = op.at(6).list().first().map(nh_of_val);
+            let tok = op.at(7).u32();
+            let attr = w.attrs.iter().find(|(t, _)| *t == tok).expect("attr token").1.clone();
+            let ctr = Arc::new(std::sync::atomic::AtomicU64::new(op.at(9).u32() as u64));
+            w.tm.insert_route(
+                s,
+                f,
+                packet::PathNlri {
+                    nlri: n,
+                    path_id: op.at(5).u32(),
+                },
+                nh,
+                attr,
+                Some((op.at(8).u32(), ctr)),
+                0,
+            );
+        }
+        12 => w.tm.start_deferral_families(&[mk_net(op.at(1).u32(), 1).0]),
+        13 => w.tm.end_deferral_families(&[mk_net(op.at(1).u32(), 1).0]),
         _ => panic!("verif: unknown op"),
     }
 }
@@ -453,6 +533,62 @@ fn run_fib_case(case: &Val) -> Val {
 #[test]
 fn verif_fib_cases() {
     val::run_cases(run_fib_case);
+}
+
+/// case = [cfg, shards, pre ops, insert op, reachability reports]: after the history
+/// `pre` a second thread runs insert_route up to its shard-lock acquisition
+/// (scheduling point 1); this thread then performs the reports completely and lets
+/// the insert finish.  observation = one [requests, rib view] per op of `pre`, then
+/// one for the race as a whole.
+fn run_fib_race_case(case: &Val) -> Val {
+    let mut w = mk_world(case.at(0), case.at(1).usize().max(1));
+    let (h, mut rx) = kernel::KernelHandle::verif_capture();
+    w.tm.kernel_handle.store(Some(Arc::new(h)));
+    let mut out = Vec::new();
+    for op in case.at(2).list() {
+        fib_op(&mut w, op);
+        let reqs = drain(&mut rx);
+        out.push(Val::L(vec![reqs, rib_view(&w)]));
+    }
+    let op = case.at(3);
+    let src = w.src(op.at(1).u32(), op.at(2).u32());
+    let (f, n) = mk_net(op.at(3).u32(), op.at(4).u32());
+    let nh = op.at(6).list().first().map(nh_of_val);
+    let tok = op.at(7).u32();
+    let attr = w.attrs.iter().find(|(t, _)| *t == tok).expect("attr token").1.clone();
+    let pid = op.at(5).u32();
+    let sched = Arc::new(Sched::new(1));
+    {
+        let tm = &w.tm;
+        std::thread::scope(|sc| {
+            let s1 = sched.clone();
+            sc.spawn(move || {
+                let s2 = s1.clone();
+                verif_sched::install(Box::new(move |_id| s2.park(0)));
+                let r = std::panic::catch_unwind(std::panic::AssertUnwindSafe(|| {
+                    tm.insert_route(src, f, packet::PathNlri { nlri: n, path_id: pid }, nh, attr, None, 0);
+                }));
+                s1.finish(0);
+                if let Err(e) = r {
+                    std::panic::resume_unwind(e);
+                }
+            });
+            // the inserter is parked before its shard lock (or has finished, were the point removed)
+            sched.settle(0);
+            for m in case.at(4).list() {
+                tm.update_nexthop_validity(addr_of_id(m.at(1).u32()), m.at(2).bool());
+            }
+            while sched.grant(0) {}
+        });
+    }
+    let reqs = drain(&mut rx);
+    out.push(Val::L(vec![reqs, rib_view(&w)]));
+    Val::L(out)
+}
+
+#[test]
+fn verif_fib_race_cases() {
+    val::run_cases(run_fib_race_case);
 }
 
 // ------------------------------------------------------------------ C18
@@ -543,19 +679,33 @@ impl Sched {
 
 struct SubWorld {
     tm: TableManager,
-    srcs: Vec<Arc<table::Source>>,                 // index = peer
+    srcs: Vec<Mutex<Arc<table::Source>>>,          // index = peer; replaced after a graceful-restart down
     attrs: Vec<Arc<Vec<packet::Attribute>>>,       // index = token
     nets: [[packet::Nlri; 4]; 2],                  // [shard][index]
     pols: Vec<Arc<table::PolicyAssignment>>,
     ctrs: Vec<Arc<std::sync::atomic::AtomicU64>>,  // index = peer
     lims: Vec<Option<u32>>,
+    subs: Vec<Mutex<Option<Subscription>>>,        // index = subscription slot
 }
 
+fn sub_new_source(p: u32) -> Arc<table::Source> {
+    Arc::new(table::Source::new(
+        peer_addr(p),
+        IpAddr::V4(Ipv4Addr::new(127, 0, 0, 1)),
+        65000 + p,
+        65000,
+        Ipv4Addr::new(1, 1, 1, p as u8),
+        table::PeerRole::Ebgp,
+    ))
+}
+fn sub_src(w: &SubWorld, peer: usize) -> Arc<table::Source> {
+    w.srcs[peer].lock().unwrap().clone()
+}
 fn sub_net(w: &SubWorld, sh: usize, ix: usize) -> packet::Nlri {
     w.nets[sh.min(1)][ix % 4].clone()
 }
 fn sub_key(w: &SubWorld, src: &table::Source, n: &packet::PathNlri) -> Val {
-    let peer = w.srcs.iter().position(|s| s.remote_addr == src.remote_addr).map(|x| x as i128).unwrap_or(-1);
+    let peer = nh_id(src.remote_addr);
     let mut pos = (-1i128, -1i128);
     for sh in 0..2 {
         for ix in 0..4 {
@@ -569,8 +719,17 @@ fn sub_key(w: &SubWorld, src: &table::Source, n: &packet::PathNlri) -> Val {
 fn sub_tok(w: &SubWorld, a: &Arc<Vec<packet::Attribute>>) -> Val {
     Val::I(w.attrs.iter().position(|x| Arc::ptr_eq(x, a)).map(|x| x as i128).unwrap_or(-1))
 }
+fn sub_peer_down(w: &SubWorld, p: usize) {
+    w.tm.peer_down(PeerDownData {
+        peer_addr: peer_addr(p as u32),
+        peer_asn: 65000 + p as u32,
+        peer_id: p as u32,
+        uptime: 0,
+        reason: packet::bmp::PeerDownReason::RemoteUnexpected,
+    });
+}
 
-fn sub_do_op(w: &SubWorld, op: &Val, slot: &Mutex<Option<Subscription>>) {
+fn sub_do_op(w: &SubWorld, op: &Val) {
     let path = |op: &Val| {
         let peer = op.at(1).usize();
         let n = sub_net(w, op.at(2).usize(), op.at(3).usize());
@@ -582,16 +741,18 @@ fn sub_do_op(w: &SubWorld, op: &Val, slot: &Mutex<Option<Subscription>>) {
             },
         )
     };
+    let fam = [Family::IPV4];
     match op.at(0).u32() {
         0 => {
+            let j = if op.list().len() > 1 { op.at(1).usize() } else { 0 };
             let s = w.tm.subscribe(true);
-            *slot.lock().unwrap() = Some(s);
+            *w.subs[j].lock().unwrap() = Some(s);
         }
         1 => {
             let (peer, net) = path(op);
             let pl = w.lims[peer].map(|m| (m, w.ctrs[peer].clone()));
             w.tm.insert_route(
-                w.srcs[peer].clone(),
+                sub_src(w, peer),
                 Family::IPV4,
                 net,
                 Some(bgp::Nexthop::V4(nh_addr(peer as u32))),
@@ -603,7 +764,7 @@ fn sub_do_op(w: &SubWorld, op: &Val, slot: &Mutex<Option<Subscription>>) {
         2 => {
             let (peer, net) = path(op);
             let ctr = w.lims[peer].map(|_| w.ctrs[peer].clone());
-            w.tm.remove_route(w.srcs[peer].clone(), Family::IPV4, net, ctr, 7);
+            w.tm.remove_route(sub_src(w, peer), Family::IPV4, net, ctr, 7);
         }
         3 => {
             let p = op.at(1).usize();
@@ -628,15 +789,9 @@ fn sub_do_op(w: &SubWorld, op: &Val, slot: &Mutex<Option<Subscription>>) {
         4 => {
             // the session-down glue of event/mod.rs: unregister_peer, then peer_down
             let p = op.at(1).usize();
-            w.tm.unregister_peer(peer_addr(p as u32), &[Family::IPV4], &[]);
+            w.tm.unregister_peer(peer_addr(p as u32), &fam, &[]);
             verif_sched::point(0);
-            w.tm.peer_down(PeerDownData {
-                peer_addr: peer_addr(p as u32),
-                peer_asn: 65000 + p as u32,
-                peer_id: p as u32,
-                uptime: 0,
-                reason: packet::bmp::PeerDownReason::RemoteUnexpected,
-            });
+            sub_peer_down(w, p);
             w.ctrs[p].store(0, std::sync::atomic::Ordering::Relaxed); // the session's counter dies with it
         }
         5 => w.tm.soft_reset_in(peer_addr(op.at(1).u32())),
@@ -648,13 +803,89 @@ fn sub_do_op(w: &SubWorld, op: &Val, slot: &Mutex<Option<Subscription>>) {
                 w.tm.import_policy.store(Some(w.pols[k - 1].clone()));
             }
         }
+        7 => {
+            // session down with graceful restart negotiated: the paths are kept, marked stale
+            let p = op.at(1).usize();
+            w.tm.unregister_peer(peer_addr(p as u32), &[], &fam);
+            verif_sched::point(0);
+            sub_peer_down(w, p);
+            w.ctrs[p].store(0, std::sync::atomic::Ordering::Relaxed);
+            *w.srcs[p].lock().unwrap() = sub_new_source(p as u32); // the next session has its own Source
+        }
+        8 => w.tm.drop_stale_families(peer_addr(op.at(1).u32()), &fam),
+        9 => w.tm.drop_families(peer_addr(op.at(1).u32()), &fam),
+        10 => w.tm.update_nexthop_validity(IpAddr::V4(nh_addr(op.at(1).u32())), op.at(2).bool()),
+        11 => w.tm.mark_llgr_stale(peer_addr(op.at(1).u32()), &fam),
+        12 => w.tm.drop_llgr_stale_families(peer_addr(op.at(1).u32()), &fam),
+        13 => {
+            let id = w.subs[op.at(1).usize()].lock().unwrap().as_ref().map(|s| s.id);
+            if let Some(id) = id {
+                w.tm.unsubscribe(id);
+            }
+        }
         _ => panic!("verif: unknown op"),
     }
 }
 
+/// what one subscriber received, its fold (bmp.rs apply_snapshot / track_peer_*)
+fn sub_drain(w: &SubWorld, sub: &mut Subscription) -> Val {
+    let mut evs = Vec::new();
+    let mut pre: crate::bmp::verif_fold::Snapshot = FnvHashMap::default();
+    let mut post: crate::bmp::verif_fold::Snapshot = FnvHashMap::default();
+    let mut sent: FnvHashSet<IpAddr> = FnvHashSet::default();
+    let mut fwd = Vec::new();
+    let peer_of = |a: IpAddr| Val::I(nh_id(a));
+    while let Ok(e) = sub.rx.try_recv() {
+        match e {
+            BgpEvent::AdjRibIn(c) => {
+                for nl in &c.nlris {
+                    evs.push(Val::L(vec![Val::I(0), sub_key(w, &c.source, nl), Val::opt(c.attrs.as_ref().map(|a| sub_tok(w, a)))]));
+                }
+                crate::bmp::verif_fold::apply(&mut pre, c);
+            }
+            BgpEvent::AdjRibInPost(c) => {
+                for nl in &c.nlris {
+                    evs.push(Val::L(vec![Val::I(1), sub_key(w, &c.source, nl), Val::opt(c.attrs.as_ref().map(|a| sub_tok(w, a)))]));
+                }
+                crate::bmp::verif_fold::apply(&mut post, c);
+            }
+            BgpEvent::PeerUp(d) => {
+                evs.push(Val::L(vec![Val::I(2), peer_of(d.peer_addr)]));
+                crate::bmp::verif_fold::peer_up(&mut sent, d.peer_addr);
+                fwd.push(Val::L(vec![Val::I(2), peer_of(d.peer_addr)]));
+            }
+            BgpEvent::PeerDown(d) => {
+                evs.push(Val::L(vec![Val::I(3), peer_of(d.peer_addr)]));
+                // a monitoring station forgets the peer's routes on Peer Down
+                pre.remove(&d.peer_addr);
+                post.remove(&d.peer_addr);
+                if crate::bmp::verif_fold::peer_down(&mut sent, d.peer_addr) {
+                    fwd.push(Val::L(vec![Val::I(3), peer_of(d.peer_addr)]));
+                }
+            }
+            BgpEvent::EndOfSnapshot => evs.push(Val::L(vec![Val::I(4)])),
+            _ => {}
+        }
+    }
+    let dump = |m: &crate::bmp::verif_fold::Snapshot| {
+        let mut v: Vec<Val> = Vec::new();
+        for pm in m.values() {
+            for ((_, nl), c) in pm {
+                v.push(Val::L(vec![sub_key(w, &c.source, nl), sub_tok(w, c.attrs.as_ref().unwrap())]));
+            }
+        }
+        v.sort_by_key(|x| format!("{}", x));
+        Val::L(v)
+    };
+    Val::L(vec![Val::L(evs), dump(&pre), dump(&post), Val::L(fwd)])
+}
+
 /// case = [[pols, lims], progs, sched]
+/// observation = [iter_reach (with the stale mark of the path's Source), iter_reach_post,
+///                [per subscription slot: [events, fold pre, fold post, forwarded]]]
 fn run_sub_case(case: &Val) -> Val {
     const NPEER: usize = 4;
+    const NSUB: usize = 3;
     let tm = TableManager::new(2);
     // concrete prefixes for (shard, index)
     let mut found: [Vec<packet::Nlri>; 2] = [vec![], vec![]];
@@ -681,19 +912,8 @@ fn run_sub_case(case: &Val) -> Val {
     }
     let w = SubWorld {
         tm,
-        srcs: (0..NPEER as u32)
-            .map(|p| {
-                Arc::new(table::Source::new(
-                    peer_addr(p),
-                    IpAddr::V4(Ipv4Addr::new(127, 0, 0, 1)),
-                    65000 + p,
-                    65000,
-                    Ipv4Addr::new(1, 1, 1, p as u8),
-                    table::PeerRole::Ebgp,
-                ))
-            })
-            .collect(),
-        attrs: (0..8u32).map(|t| mk_attrs(t % 3, false, false, &[t])).collect(),
+        srcs: (0..NPEER as u32).map(|p| Mutex::new(sub_new_source(p))).collect(),
+        attrs: (0..8u32).map(|t| mk_attrs(t % 3, false, t >= 4, &[t])).collect(),
         nets,
         pols: cfg
             .at(0)
@@ -707,23 +927,22 @@ fn run_sub_case(case: &Val) -> Val {
             .collect(),
         ctrs: (0..NPEER).map(|_| Arc::new(std::sync::atomic::AtomicU64::new(0))).collect(),
         lims,
+        subs: (0..NSUB).map(|_| Mutex::new(None)).collect(),
     };
     let progs = case.at(1).list();
     let n = progs.len();
     let sched = Arc::new(Sched::new(n));
-    let slot: Mutex<Option<Subscription>> = Mutex::new(None);
     std::thread::scope(|sc| {
         for (i, prog) in progs.iter().enumerate() {
             let sched = sched.clone();
             let w = &w;
-            let slot = &slot;
             sc.spawn(move || {
                 let s2 = sched.clone();
                 verif_sched::install(Box::new(move |_id| s2.park(i)));
                 let r = std::panic::catch_unwind(std::panic::AssertUnwindSafe(|| {
                     for op in prog.list() {
                         verif_sched::point(0);
-                        sub_do_op(w, op, slot);
+                        sub_do_op(w, op);
                     }
                 }));
                 sched.finish(i);
@@ -742,63 +961,19 @@ fn run_sub_case(case: &Val) -> Val {
             while sched.grant(i) {}
         }
     });
-    // what the subscriber received, and its fold (bmp.rs apply_snapshot / track_peer_*)
-    let mut evs = Vec::new();
-    let mut pre: crate::bmp::verif_fold::Snapshot = FnvHashMap::default();
-    let mut post: crate::bmp::verif_fold::Snapshot = FnvHashMap::default();
-    let mut sent: FnvHashSet<IpAddr> = FnvHashSet::default();
-    let mut fwd = Vec::new();
-    let peer_of = |a: IpAddr| Val::I(nh_id(a));
-    if let Some(mut sub) = slot.lock().unwrap().take() {
-        while let Ok(e) = sub.rx.try_recv() {
-            match e {
-                BgpEvent::AdjRibIn(c) => {
-                    for nl in &c.nlris {
-                        evs.push(Val::L(vec![Val::I(0), sub_key(&w, &c.source, nl), Val::opt(c.attrs.as_ref().map(|a| sub_tok(&w, a)))]));
-                    }
-                    crate::bmp::verif_fold::apply(&mut pre, c);
-                }
-                BgpEvent::AdjRibInPost(c) => {
-                    for nl in &c.nlris {
-                        evs.push(Val::L(vec![Val::I(1), sub_key(&w, &c.source, nl), Val::opt(c.attrs.as_ref().map(|a| sub_tok(&w, a)))]));
-                    }
-                    crate::bmp::verif_fold::apply(&mut post, c);
-                }
-                BgpEvent::PeerUp(d) => {
-                    evs.push(Val::L(vec![Val::I(2), peer_of(d.peer_addr)]));
-                    crate::bmp::verif_fold::peer_up(&mut sent, d.peer_addr);
-                    fwd.push(Val::L(vec![Val::I(2), peer_of(d.peer_addr)]));
-                }
-                BgpEvent::PeerDown(d) => {
-                    evs.push(Val::L(vec![Val::I(3), peer_of(d.peer_addr)]));
-                    // a monitoring station forgets the peer's routes on Peer Down
-                    pre.remove(&d.peer_addr);
-                    post.remove(&d.peer_addr);
-                    if crate::bmp::verif_fold::peer_down(&mut sent, d.peer_addr) {
-                        fwd.push(Val::L(vec![Val::I(3), peer_of(d.peer_addr)]));
-                    }
-                }
-                BgpEvent::EndOfSnapshot => evs.push(Val::L(vec![Val::I(4)])),
-                _ => {}
-            }
+    let mut subs = Vec::new();
+    for slot in &w.subs {
+        match slot.lock().unwrap().as_mut() {
+            Some(sub) => subs.push(sub_drain(&w, sub)),
+            None => subs.push(Val::L(vec![])),
         }
     }
-    let dump = |m: &crate::bmp::verif_fold::Snapshot| {
-        let mut v: Vec<Val> = Vec::new();
-        for pm in m.values() {
-            for ((_, nl), c) in pm {
-                v.push(Val::L(vec![sub_key(&w, &c.source, nl), sub_tok(&w, c.attrs.as_ref().unwrap())]));
-            }
-        }
-        v.sort_by_key(|x| format!("{}", x));
-        Val::L(v)
-    };
     let mut rib_pre = Vec::new();
     let mut rib_post = Vec::new();
     for shard in &w.tm.shards {
         let t = shard.lock().unwrap();
         for r in t.rtable.iter_reach(Family::IPV4) {
-            rib_pre.push(Val::L(vec![sub_key(&w, &r.source, &r.net), sub_tok(&w, &r.attr)]));
+            rib_pre.push(Val::L(vec![sub_key(&w, &r.source, &r.net), sub_tok(&w, &r.attr), Val::b(r.source.is_stale())]));
         }
         for r in t.rtable.iter_reach_post(Family::IPV4) {
             rib_post.push(Val::L(vec![sub_key(&w, &r.source, &r.net), sub_tok(&w, &r.attr)]));
@@ -806,7 +981,7 @@ fn run_sub_case(case: &Val) -> Val {
     }
     rib_pre.sort_by_key(|x| format!("{}", x));
     rib_post.sort_by_key(|x| format!("{}", x));
-    Val::L(vec![Val::L(evs), Val::L(rib_pre), Val::L(rib_post), dump(&pre), dump(&post), Val::L(fwd)])
+    Val::L(vec![Val::L(rib_pre), Val::L(rib_post), Val::L(subs)])
 }
 
 #[test]
